@@ -26,6 +26,8 @@ def isinst(it, v, t) -> bool:
         return isinstance(v, Rec) and v.cls == t.name
     if isinstance(t, I.Builtin):
         t = I.TypeRef(t.name)
+    if isinstance(t, I.Marker) and t.path.startswith(("sparse.", "scipy.")):
+        return False  # modelled values are never SciPy sparse matrices
     if not isinstance(t, I.TypeRef):
         raise PathAbort(f"isinstance against {t!r}", it.ctx.cur_line)
     n = t.name
@@ -97,6 +99,11 @@ def call_builtin(it, name, pos, kw):
                 return a.name in ("np.integer", "np.int_", "np.int64")
             if b.name == "np.floating":
                 return a.name in ("np.floating", "np.float64")
+            if b.name == "np.number":
+                return a.name in ("np.floating", "np.float64", "np.integer", "np.int_", "np.int64")
+            if b.name in ("np.generic",):
+                return a.name.startswith("np.")
+            return False
         raise PathAbort("issubclass", ctx.cur_line)
     if name == "callable":
         return isinstance(pos[0], (FuncVal, I.Builtin, I.BoundMethod)) or (isinstance(pos[0], Opaque) and "callable" in pos[0].what) or bool(getattr(pos[0], "_pyvc_native", False))
